@@ -142,6 +142,22 @@ func derivesFrom(r, e ssa.Value, depth int) bool {
 				return true
 			}
 		}
+	case *ssa.UnOp:
+		// results spilled because of a defer: the value stored last in the same block
+		if al, ok := x.X.(*ssa.Alloc); ok && x.Op == token.MUL {
+			var last *ssa.Store
+			for _, in := range x.Block().Instrs {
+				if in == ssa.Instruction(x) {
+					break
+				}
+				if st, ok := in.(*ssa.Store); ok && st.Addr == ssa.Value(al) {
+					last = st
+				}
+			}
+			if last != nil {
+				return derivesFrom(last.Val, e, depth+1)
+			}
+		}
 	case *ssa.MakeInterface:
 		return derivesFrom(x.X, e, depth+1)
 	case *ssa.ChangeInterface:
